@@ -17,6 +17,7 @@ import (
 	"berty.tech/go-orbit-db/stores/replicator"
 	"berty.tech/go-orbit-db/verifhook"
 	cid "github.com/ipfs/go-cid"
+	"github.com/libp2p/go-libp2p/p2p/host/eventbus"
 
 	"verifharness/hk"
 	"verifharness/sim"
@@ -354,3 +355,5 @@ func replState(s iface.Store) (string, bool) {
 }
 
 var stderrW = os.Stderr
+
+func busBuf(n int) func(interface{}) error { return eventbus.BufSize(n) }
